@@ -823,7 +823,7 @@ def norm2 : Pos → Int
   | [] => 0
   | x :: xs => sq x + norm2 xs
 
-theorem diffAux_norm2 (t : Bool) (ds : List (Int × Int)) (p q : Pos) (hw : ∀ d ∈ ds, d.1 ≤ d.2) :
+theorem diffAux_norm2 (t : Bool) (ds : List (Int × Int)) (p q : Pos) (hw : ∀ d ∈ ds, d.1 < d.2) :
     norm2 (diffAux t ds p q) = dist2Aux t ds p q := by
   induction ds generalizing p q with
   | nil => simp [diffAux, dist2Aux, norm2]
